@@ -76,7 +76,7 @@ class Analysis:
             try:
                 # generous helper inlining first; the usual limit when that explodes
                 found = None
-                for helper_paths, budget in ((32, 400000), (saved[1], None)):
+                for helper_paths, budget in ((48, 400000), (saved[1], None)):
                     if budget is not None and callee.fn.qn in self._no_generous:
                         continue
                     it.HELPER_PATHS, it.budget = helper_paths, budget
